@@ -90,6 +90,14 @@ func DownSamplingMultiSeriesInto(
 	// inf value is invalid, and won't be emitted after down sampling
 	fillInfBlock(targetValues)
 	bs := int(baseSlot)
+	// NOTE: first/last field need keep the value of the earliest/latest source slot, not the value of the first/last decoder,
+	// because the order of decoders(source files) is not the order of time.
+	var sourceSlots []uint16
+	isFirst := fieldType == field.FirstField
+	if isFirst || fieldType == field.LastField {
+		// source slot of the value which stores in target position
+		sourceSlots = make([]uint16, length)
+	}
 	// second loop: iterating tsd decoder
 	for _, decoder := range decoders {
 		if decoder == nil {
@@ -108,11 +116,21 @@ func DownSamplingMultiSeriesInto(
 			if targetPos >= length {
 				break
 			}
-			// not set before
-			if math.IsInf(targetValues[targetPos], 1) {
+			switch {
+			case math.IsInf(targetValues[targetPos], 1):
+				// not set before
 				targetValues[targetPos] = value
+				if sourceSlots != nil {
+					sourceSlots[targetPos] = movingSourceSlot
+				}
+			case sourceSlots != nil:
+				// first/last field, replace the value if current source slot is earlier/later
+				if (isFirst && movingSourceSlot < sourceSlots[targetPos]) || (!isFirst && movingSourceSlot >= sourceSlots[targetPos]) {
+					targetValues[targetPos] = value
+					sourceSlots[targetPos] = movingSourceSlot
+				}
+			default:
 				// set before, aggregate
-			} else {
 				targetValues[targetPos] = fieldType.AggType().Aggregate(targetValues[targetPos], value)
 			}
 		}
